@@ -45,7 +45,12 @@ def load_corpus():
 def nontrivial_classes(events, mtoks):
     """coarse classes of what a history exercised (measured on the model's tokens, which the daemon agreed with)"""
     cl = set()
+    started = False
     for ev, t in zip(events, mtoks):
+        if ev[0] in "ZV" and started and t != "!":
+            cl.add("reload-after-a-start" if ev[0] == "Z" else "service-files-changed-after-a-start")
+        if "sp." in t:
+            started = True
         if t in ("-", "!", "~"):
             continue
         parts = t.split("+")
